@@ -548,12 +548,30 @@ def mon_malformed(ops, lines):
     w = mon_rejected_pure(ops, lines)
     if w:
         return w
+    made, rejected = set(), {}
     for i, (o, r) in enumerate(zip(ops, lines)):
         if r.startswith("!"):
             return "C17-noanswer: op %d %s -> %s" % (i, o.split(" ")[0], r[:80])
         ot, rt = o.split(" "), r.split(" ")
         k = ot[0]
         code = rt[1] if len(rt) > 1 else None
+        # a rejected create creates nothing: the name it asked for does not exist afterwards (unless it did before)
+        if k in ("CS", "CT") and code == "0":
+            made.add(ot[1])
+            rejected.pop(ot[1], None)
+        elif k in ("CS", "CT") and code == "3" and ot[1] not in made:
+            rejected[ot[1]] = i
+        elif k in ("DS", "DT") and code == "0":
+            made.discard(ot[1])
+        elif k in ("GS", "GT", "PULL", "STATS") and code == "0" and ot[1] in rejected:
+            return ("C17-rejected-changed-state: the create of %r was rejected with INVALID_ARGUMENT at op %d, yet %s finds it "
+                    "at op %d" % (unhx(ot[1]), rejected[ot[1]], k, i))
+        elif k == "LS" and code == "0":
+            n = int(rt[2])
+            for nm in rt[3:3 + 4 * n:4]:
+                if nm in rejected:
+                    return ("C17-rejected-changed-state: the create of %r was rejected with INVALID_ARGUMENT at op %d, yet "
+                            "ListSubscriptions lists it at op %d" % (unhx(nm), rejected[nm], i))
 
         def shape(tok, kind):
             try:
@@ -812,6 +830,25 @@ def mon_abandon(ops, lines):
                         "Pull blocked on it is still waiting (op %d)" % i)
             if ot[0] in ("PUB", "ADV"):
                 break
+    # an abandoned Acknowledge of many deliveries acknowledges all of them or none
+    if ops[x].split(" ")[1] == "ACKN":
+        n = int(ops[x].split(" ")[-1])
+        sub = ops[x].split(" ")[5]
+        before = after = None
+        for i in range(x - 1, -1, -1):
+            if ops[i].split(" ")[:2] == ["STATS", sub] and lines[i].split(" ")[1:2] == ["0"]:
+                before = int(lines[i].split(" ")[2])
+                break
+        for i in range(x + 1, len(ops)):
+            if ops[i].split(" ")[:2] == ["STATS", sub] and lines[i].split(" ")[1:2] == ["0"]:
+                after = int(lines[i].split(" ")[2])
+                break
+            if ops[i].split(" ")[0] in ("ADV", "PULL", "ACK", "MOD", "DS"):
+                break
+        if before is not None and after is not None and after not in (before, before - n):
+            return ("C16-partial-acknowledge: an Acknowledge naming %d of the %d outstanding deliveries was abandoned; %d are "
+                    "outstanding afterwards - neither all of them still (never received) nor %d (completed)"
+                    % (n, before, after, before - n))
     # nothing wedged: a subscription that exists receives what is published to its topic - its message count
     # (leased + waiting) grows by the size of every Publish issued between two of its STATS answers
     before, pubs = {}, {}
@@ -953,6 +990,40 @@ def mon_no_hang(ops, lines):
                 return "C07-pending: call %s (%s) has no answer although the server is idle" % (o.split(" ")[1], src.split(" ")[2])
     if len(lines) < len(ops):
         return "C07-no-answer: the case stopped at op %d" % len(lines)
+    return None
+
+
+def mon_backed_up(ops, lines):
+    """C06 next to a StreamingPull handler suspended at the hand-over of a batch (its last XQ produced a batch and it is
+    not polled again - a client that has stopped reading): the reading of mon_wait for the consumers that do wait.
+    Cases in which the held handler is anywhere else are not judged (a handler that awaits the signal and is never
+    polled would swallow the wake-up by the harness's own doing)."""
+    last = None
+    for o, r in zip(ops, lines):
+        if o.startswith("XQ "):
+            last = r
+    if last is None or not last.startswith("XQ batch"):
+        return None
+    return mon_wait(ops, lines)
+
+
+def mon_push_delete(ops, lines):
+    """C14, last clause, on the endpoint's own record: after DeleteSubscription has answered OK in the middle of a push
+    pass, at most one more POST arrives (the one that was on the wire), however many messages the page held."""
+    for i, (o, r) in enumerate(zip(ops, lines)):
+        if r.startswith("!"):
+            return "C14-noanswer: op %d got %s" % (i, r[:60])
+        ot, rt = o.split(" "), r.split(" ")
+        if ot[0] == "LOOPDEL":
+            if rt[1] != "0":
+                return "C14-delete-status: DeleteSubscription of a push subscription in the middle of a pass answered %s (op %d)" % (rt[1], i)
+            if int(rt[3]) > 1:
+                return ("C14-pushed-after-delete: %s POSTs arrived at the endpoint after DeleteSubscription had answered "
+                        "(%s had arrived before) (op %d)" % (rt[3], rt[2], i))
+        if ot[0] == "GS" and rt[1] == "0":
+            return "C14-deleted-but-found: the deleted push subscription is still returned by GetSubscription (op %d)" % i
+        if ot[0] == "REG" and rt[1] != "0":
+            return "C14-deleted-but-registered: the push registry still lists the deleted subscription (op %d)" % i
     return None
 
 
@@ -1537,4 +1608,101 @@ def mon_control_shape(ops, lines):
                                     "seconds; the stream %s instead of ending with INVALID_ARGUMENT (op %d)"
                                     % (i, nm, ns, "is still open" if rj[-1] == "-" else "ended with status " + rj[-1], j))
                         break
+    return None
+
+
+def mon_ids_unique(ops, lines):
+    """C09: whatever calls are in flight together, no message id is returned by two Publish calls (or twice by one), and
+    no id is delivered with two different payloads."""
+    seen, payload = {}, {}
+    for i, (o, r) in enumerate(zip(ops, lines)):
+        ot, rt = o.split(" "), r.split(" ")
+        if r.startswith("!"):
+            return "C09-noanswer: op %d (%s) got %s" % (i, ot[0], r[:60])
+        ids = None
+        if ot[0] in ("PUB", "PUBN") and rt[:2] == [rt[0], "0"] and len(rt) > 2:
+            ids = rt[3:3 + int(rt[2])]
+        elif ot[0] == "JOIN" and rt[2:4] == ["PUB", "0"]:
+            ids = rt[5:5 + int(rt[4])]
+        for x in ids or []:
+            if x in seen:
+                return ("C09-id-reused: message id %r was returned by the Publish at op %d and again by the one answered at op %d"
+                        % (unhx(x), seen[x], i))
+            seen[x] = i
+        if ot[0] == "PULL" and rt[1:2] == ["0"]:
+            msgs, _ = parse_msgs(rt, 3, int(rt[2]))
+            for m in msgs:
+                if m[1] in payload and payload[m[1]] != m[2]:
+                    return "C09-payload: message id %r is delivered with two different payloads (op %d)" % (unhx(m[1]), i)
+                payload[m[1]] = m[2]
+    return None
+
+
+def mon_delete_both(ops, lines):
+    """C12 for gen.delete_both_cases: after the racing deletions and a retried DeleteSubscription have answered, the
+    subscription is gone (Get answers NOT_FOUND), its stream has ended with NOT_FOUND and its blocked Pull has returned."""
+    retried = None
+    for i, (o, r) in enumerate(zip(ops, lines)):
+        ot, rt = o.split(" "), r.split(" ")
+        if r.startswith("!"):
+            return "C12-noanswer: op %d (%s) got %s" % (i, ot[0], r[:60])
+        if ot[0] == "JOIN" and ot[1] in ("900", "901") and rt[2:] == ["-"]:
+            return "C07-pending: the deletion started as call %s has no answer" % ot[1]
+        if ot[0] == "DS":
+            retried = (i, rt[1] if len(rt) > 1 else None)
+        elif retried and ot[0] == "GS":
+            if rt[1:2] != ["5"]:
+                return ("C12-half-deleted: after the racing DeleteTopic / DeleteSubscription and a retried DeleteSubscription "
+                        "(answered %s at op %d) GetSubscription still finds %r (status %s): the deletion stopped half-way"
+                        % (retried[1], retried[0], unhx(ot[1]), rt[1] if len(rt) > 1 else "?"))
+        elif retried and ot[0] == "SR" and rt[-1] != "5":
+            return ("C12-stream-not-released: the subscription is deleted, its stream %s (op %d)"
+                    % ("is still open" if rt[-1] == "-" else "ended with status " + rt[-1], i))
+        elif retried and ot[0] == "JOIN" and ot[1] == "100" and rt[2:] == ["-"]:
+            return "C12-pull-not-released: the subscription is deleted, the Pull blocked on it is still waiting (op %d)" % i
+    return None
+
+
+def mon_request_order(ops, lines):
+    """C08 for requests with ordering keys: one id per message, increasing; the i-th id is the id under which the i-th
+    payload is delivered; first deliveries come in the order of acceptance (= id order)."""
+    want = {}          # id -> payload it must carry
+    last = -1
+    delivered = []
+    for i, (o, r) in enumerate(zip(ops, lines)):
+        ot, rt = o.split(" "), r.split(" ")
+        if r.startswith("!"):
+            return "C08-noanswer: op %d (%s) got %s" % (i, ot[0], r[:60])
+        if ot[0] in ("PUB", "PUBK") and rt[1:2] == ["0"]:
+            k = int(ot[2])
+            step = 2
+            if ot[0] == "PUB":
+                datas, j = [], 3
+                for _ in range(k):
+                    datas.append(ot[j]); j += 2 + 2 * int(ot[j + 1])
+            else:
+                datas = [ot[3 + step * q] for q in range(k)]
+            ids = rt[3:3 + int(rt[2])]
+            if len(ids) != k:
+                return "C08-id-count: Publish of %d messages returned %d ids (op %d)" % (k, len(ids), i)
+            for x, d in zip(ids, datas):
+                v = int(unhx(x).decode())
+                if v <= last:
+                    return "C08-ids-not-increasing: id %d issued after %d (op %d)" % (v, last, i)
+                last = v
+                want[x] = d
+        elif ot[0] == "PULL" and rt[1:2] == ["0"]:
+            msgs, _ = parse_msgs(rt, 3, int(rt[2]))
+            for m in msgs:
+                if m[1] in want and want[m[1]] != m[2]:
+                    return ("C08-id-of-another-message: id %r was returned for the message with payload %r, and is delivered "
+                            "with payload %r (op %d): the ids of that Publish are not in request order"
+                            % (unhx(m[1]), unhx(want[m[1]]), unhx(m[2]), i))
+                delivered.append(int(unhx(m[1]).decode()))
+    firsts = []
+    for v in delivered:
+        if v not in firsts:
+            firsts.append(v)
+    if firsts != sorted(firsts):
+        return "C08-first-delivery-order: first deliveries came as %r, not in the order the messages were accepted" % firsts
     return None
